@@ -5,8 +5,8 @@ package main
 // repository helpers.
 
 import (
-	"go/token"
 	"fmt"
+	"go/token"
 	"go/types"
 	"regexp"
 	"strings"
